@@ -3,6 +3,7 @@ import XlModel.Lemmas.Styles
 import XlModel.Lemmas.StylesGrid
 import XlModel.Lemmas.StylesIdem
 import XlModel.Lemmas.StylesRead
+import XlModel.Lemmas.StylesGridRef
 /-!
 # Property C17 — style registry is stable and deduplicating; styles resolve cell > row > column
 
@@ -543,6 +544,89 @@ theorem custom_code_lookup_stable (ss tt : List Style) (c : Str) (n : Nat)
   cases hf : (numFmtList (runNew initReg ss)).find? (·.code == c) with
   | none => rw [hf] at h; cases h
   | some nf => rw [hf] at h; simpa using h
+
+/-! ## the stored grid refines the three-level Spec over histories -/
+
+/-- a successful style operation on the worksheet (coordinates as after the setters' normalisation) -/
+inductive GOp
+  | cell (hc hr vc vr sid : Nat)   -- SetCellStyle, rectangle hc..vc × hr..vr
+  | row (s e sid : Nat)            -- SetRowStyle
+  | col (mn mx sid : Nat)          -- SetColStyle
+  | write (c r : Nat)              -- a cell setter that stores the inherited style
+
+def GOp.ok : GOp → Prop
+  | .cell hc hr _ _ _ => 1 ≤ hc ∧ 1 ≤ hr
+  | .row s e _ => 1 ≤ s ∧ s ≤ e
+  | .col mn mx _ => 1 ≤ mn ∧ mn ≤ mx
+  | .write c r => 1 ≤ c ∧ 1 ≤ r
+
+/-- what the Impl setters leave behind (`setCellStyle_ok`, `setRowStyle_ok`, `setColStyle_ok`) -/
+def stepI (g : Grid) : GOp → Grid
+  | .cell hc hr vc vr sid => setRectGrown g hc hr vc vr sid
+  | .row s e sid => setRowGrid g s e sid
+  | .col mn mx sid => if g.rows.length > 0 then setColGrid g mn mx sid else { g with cols := flatCols mn mx sid g.cols }
+  | .write c r => writeCell g c r
+
+def stepS (l : Spec.Levels) : GOp → Spec.Levels
+  | .cell hc hr vc vr sid => Spec.setCell l hc hr vc vr sid
+  | .row s e sid => Spec.setRow l s e sid
+  | .col mn mx sid => Spec.setCol l mn mx sid
+  | .write c r => Spec.write l c r
+
+/-- **setRow_refines / setCol_refines / setCell_refines / write_refines**: each operation keeps the
+refinement — same row and column levels, same resolution at every position, flat column list.
+SetColStyle goes through `flatCols` (new range first, older entries of the range dropped) and the
+overwrite of the cells of the rows that exist; both cases `len(Row) > 0` and `= 0` are covered -/
+theorem step_refines {g : Grid} {l : Spec.Levels} (h : Refines g l) (o : GOp) (ok : o.ok) :
+    Refines (stepI g o) (stepS l o) := by
+  cases o with
+  | cell hc hr vc vr sid => exact setCell_refines h hc hr vc vr sid ok.1 ok.2
+  | row s e sid => exact setRow_refines h s e sid ok.1 ok.2
+  | col mn mx sid =>
+    unfold stepI
+    by_cases hr : g.rows.length > 0
+    · simp only [hr, if_true]; exact setCol_refines h mn mx sid ok.1 ok.2
+    · simp only [hr, if_false]; exact setCol_refines_norows h mn mx sid ok.2 (by omega)
+  | write c r => exact write_refines h c r ok.1 ok.2
+
+/-- over every history of SetCellStyle / SetRowStyle / SetColStyle / cell writes, in any interleaving,
+starting from a new worksheet -/
+theorem grid_refines_history (ops : List GOp) (hok : ∀ o ∈ ops, o.ok) :
+    Refines (ops.foldl stepI Grid.empty) (ops.foldl stepS Spec.Levels.empty) := by
+  suffices H : ∀ (g : Grid) (l : Spec.Levels), Refines g l → Refines (ops.foldl stepI g) (ops.foldl stepS l) from
+    H _ _ refines_empty
+  induction ops with
+  | nil => intro g l h; exact h
+  | cons o t ih =>
+    intro g l h
+    simp only [List.foldl_cons]
+    exact ih (fun x hx => hok x (List.mem_cons_of_mem _ hx)) _ _ (step_refines h o (hok o (by simp)))
+
+/-- **resolve_cell_row_col over histories** ("the style a cell reports is the one explicitly set on
+it, otherwise its row's, otherwise its column's; the setters affect exactly the addressed range"):
+after ANY history, `GetCellStyle` of every position equals the three-level Spec's resolution, and
+`GetColStyle`'s level equals the Spec's column level -/
+theorem getcellstyle_history (ops : List GOp) (hok : ∀ o ∈ ops, o.ok) (c r : Nat) (hc : 1 ≤ c) (hr : 1 ≤ r) :
+    getCellStyle (ops.foldl stepI Grid.empty) c r = Spec.resolve (ops.foldl stepS Spec.Levels.empty) c r := by
+  have e : getCellStyle (ops.foldl stepI Grid.empty) c r =
+      Spec.resolve (levelsOf (ops.foldl stepI Grid.empty)) c r := prepareCellStyle_eq_resolve _ c r hr
+  rw [e]
+  exact (grid_refines_history ops hok).res c r hc hr
+
+/-- the column list stays flat (one entry per column, no column twice), so the first-match lookup of
+`prepareCellStyle` and the last-match lookup of `GetColStyle` cannot disagree -/
+theorem cols_flat_history (ops : List GOp) (hok : ∀ o ∈ ops, o.ok) :
+    FlatUnique (ops.foldl stepI Grid.empty).cols := (grid_refines_history ops hok).flat
+
+/-- `stepI` is what the Impl setters return for a valid id and normalised arguments -/
+theorem stepI_is_impl (reg : Reg) (g : Grid) (sid : Int) (hv : validId reg sid = true) :
+    (∀ hc hr vc vr, hc ≤ vc → hr ≤ vr → (setCellStyle reg g hc hr vc vr sid).1 = stepI g (.cell hc hr vc vr sid.toNat)) ∧
+    (∀ s e : Nat, 1 ≤ s → s ≤ e → e ≤ Facts.TotalRows →
+      (setRowStyle reg g (s : Int) (e : Int) sid).1 = stepI g (.row s e sid.toNat)) ∧
+    (∀ mn mx, mn ≤ mx → (setColStyle reg g mn mx sid).1 = stepI g (.col mn mx sid.toNat)) := by
+  refine ⟨fun hc hr vc vr h1 h2 => by rw [setCellStyle_ok reg g hc hr vc vr sid hv h1 h2]; rfl,
+    fun s e h1 h2 h3 => by rw [setRowStyle_ok reg g s e sid hv h1 h2 h3]; rfl,
+    fun mn mx h => by rw [setColStyle_ok reg g mn mx sid hv h]; rfl⟩
 
 /-! ### non-vacuity and the positive cases -/
 
